@@ -4,7 +4,7 @@ cd "$(dirname "$0")/.."
 : > /tmp/final_pass.txt
 for id in $(jq -r '.checks[].property_id' MANIFEST.json); do
   s=$(date +%s)
-  VERIF_SEED=1 ./check $id --tier quick > /tmp/final-$id.log 2>&1; rc=$?
+  VERIF_SEED=${VERIF_SEED_OVERRIDE:-1} ./check $id --tier quick > /tmp/final-$id.log 2>&1; rc=$?
   e=$(date +%s)
   echo "$id rc=$rc $((e-s))s viol=$(grep -c '^VIOLATION' /tmp/final-$id.log) known=$(grep -c '^KNOWN-FINDING' /tmp/final-$id.log)" | tee -a /tmp/final_pass.txt
 done
